@@ -111,8 +111,77 @@ def check(run):
             where = '%s:%d' % (tb[-1].filename.split('/')[-1], tb[-1].lineno)
             bad('exception', 'no exception', 'exc:%s:%s @ %s' % (type(ex).__name__, str(ex)[:100], where))
     run.validated = run.evaluations
+    _corpus_traces(run)
     if not run.samples:
         run.samples.append({'note': 'no sample'})
+
+
+T_QUICK = ['sample_exe64.elf', 'dwarfv5_basic.elf', 'dwarf_debug_types.elf', 'trailing_null_dies.elf', 'lambda.elf', 'simple_gcc.elf.arm',
+           'simple_mipsel.elf', 'dwarf_lineprog_data16.elf', 'pascalenum.o', 'aranges_partial.elf', 'arm_with_form_indirect.elf',
+           'dwarf_llpair.elf', 'exe_solaris64_cc.elf', 'debug_info.elf']
+
+
+def _corpus_traces(run):
+    """T: entry streams of compiler-produced units must be behaviours of the reader machine (spec/trace/DieTrace.tla)."""
+    import os
+    from elftools.elf.elffile import ELFFile
+    roots = [os.path.join(core.REPO, 'test', d) for d in ('testfiles_for_unittests', 'testfiles_for_readelf', 'testfiles_for_dwarfdump')]
+    files = []
+    for r in roots:
+        for f in sorted(os.listdir(r)):
+            p = os.path.join(r, f)
+            if os.path.isfile(p) and os.path.getsize(p) > 0 and (run.tier == 'thorough' or f in T_QUICK):
+                files.append(p)
+    events = []
+    tid = 0
+    nfiles = 0
+    seen = set()
+    for p in files:
+        data = open(p, 'rb').read()
+        if data[:4] != b'\x7fELF' or core.digest(data) in seen:
+            continue
+        seen.add(core.digest(data))
+        try:
+            with core.guard(120):
+                ef = ELFFile(io.BytesIO(data))
+                if not ef.has_dwarf_info(strict=True):
+                    continue
+                di = ef.get_dwarf_info()
+                nfiles += 1
+                ncu = 0
+                for cu in di.iter_CUs():
+                    ncu += 1
+                    if run.tier == 'quick' and ncu > 25:
+                        break
+                    tid += 1
+                    events.append({'tid': tid, 'ev': 'unit', 'off': cu.cu_offset, 'die_off': cu.cu_die_offset, 'end': cu.cu_offset + cu.size,
+                                   'size': 0, 'null': False, 'kids': False, 'parent': -1})
+                    for d in cu.iter_DIEs():
+                        par = d.get_parent()
+                        events.append({'tid': tid, 'ev': 'die', 'off': d.offset, 'die_off': 0, 'end': 0, 'size': d.size, 'null': d.is_null(),
+                                       'kids': bool(d.has_children), 'parent': -1 if par is None else par.offset})
+                    events.append({'tid': tid, 'ev': 'end', 'off': 0, 'die_off': 0, 'end': 0, 'size': 0, 'null': False, 'kids': False, 'parent': -1})
+        except Exception as ex:
+            run.notes.append('T: %s not traced (%s)' % (os.path.basename(p), type(ex).__name__))
+    if not events:
+        raise core.MachineryError('C04 T: no corpus unit could be traced')
+    trace = run.trace_file('dies', events)
+    res = run.tlc('DieTrace', 'DieTrace', env={'TRACE': trace}, workers=1)
+    verdicts = list(run.cases(res.out))
+    if len(verdicts) != 1:
+        raise core.MachineryError('DieTrace wrote %d verdicts' % len(verdicts))
+    v = verdicts[0]
+    for t, line, why in v['bad']:
+        ev = events[line - 1]
+        run.mismatch('trace.' + why.split(':')[0].replace(' ', '_')[:40], 'corpus', {'tid': t, 'line': line, 'event': ev}, 'a behaviour of the reader machine', why)
+    run.validated += v['ok']
+    run.evaluations += tid
+    run.nontrivial |= {('trace', i) for i in range(v['ok'])}
+    run.extra['T_units'] = tid
+    run.extra['T_units_accepted'] = v['ok']
+    run.extra['T_units_with_trailing_padding'] = v['padded']
+    run.extra['T_files'] = nfiles
+    run.extra['T_events'] = len(events)
 
 
 def _units(di, case):
